@@ -325,10 +325,12 @@ Definition submit (k : okind) (o c : N) (ev last : string) (black : list N) (old
 Record cfg := {
   d_cache_failed_events : bool;     (* Event_SERVICE events of failed (reverted) transactions still update the executor cache *)
   d_cache_not_reloaded : bool;      (* the cache is not rebuilt from the ledger at start *)
-  d_logout_reject_unpauses : bool   (* AppchainManager.Manage: a rejected logout unpauses the services whatever status the appchain returns to *)
+  d_logout_reject_unpauses : bool;  (* AppchainManager.Manage: a rejected logout unpauses the services whatever status the appchain returns to *)
+  d_cache_deferred : bool           (* the executor cache takes the records posted by a transaction only at the end of the block
+                                       (not the case in the code as it is: applyTx stores them right after the transaction) *)
 }.
-Definition cfg_fixed : cfg := {| d_cache_failed_events := false; d_cache_not_reloaded := false; d_logout_reject_unpauses := false |}.
-Definition cfg_faithful : cfg := {| d_cache_failed_events := true; d_cache_not_reloaded := true; d_logout_reject_unpauses := true |}.
+Definition cfg_fixed : cfg := {| d_cache_failed_events := false; d_cache_not_reloaded := false; d_logout_reject_unpauses := false; d_cache_deferred := false |}.
+Definition cfg_faithful : cfg := {| d_cache_failed_events := true; d_cache_not_reloaded := true; d_logout_reject_unpauses := true; d_cache_deferred := false |}.
 
 (** * Service manager *)
 Definition lock_svc (i : N) (ev : string) (k : prog) : prog := Gov (fun ps => fst (lock_low KSvc i 0 ev ps)) k.
@@ -702,6 +704,34 @@ Fixpoint trace (f : cfg) (s : state) (h : list op) : list result :=
   | o :: t => let r := step f s o in r :: trace f (r_state r) t
   end.
 
+(** ** Blocks
+    A block is a list of transactions executed one after the other; the executor stores the service records a
+    transaction posted into its cache right after that transaction (applyTx), so a request later in the same block
+    sees them.  [c0] is the cache as it was when the block started: with [d_cache_deferred] a request inside the
+    block decides on that one. *)
+Definition step_at (f : cfg) (c0 : smap) (s : state) (o : op) : result :=
+  match o with
+  | OIbtp src dst =>
+      if d_cache_deferred f
+      then {| r_ok := true; r_log := []; r_state := s;
+              r_out := outcome_code (if negb (proof_ok s src) then OProof else gate (view c0 (svcs s)) src dst) |}
+      else step f s o
+  | _ => step f s o
+  end.
+
+Fixpoint trace_block (f : cfg) (c0 : smap) (s : state) (ops : list op) : list result * state :=
+  match ops with
+  | [] => ([], s)
+  | o :: t => let r := step_at f c0 s o in
+              let '(rs, s') := trace_block f c0 (r_state r) t in (r :: rs, s')
+  end.
+
+Fixpoint trace_blocks (f : cfg) (s : state) (bs : list (list op)) : list result :=
+  match bs with
+  | [] => []
+  | b :: t => let '(rs, s') := trace_block f (cache s) s b in (rs ++ trace_blocks f s' t)%list
+  end.
+
 (** * Observations, property predicates, judge *)
 
 (** what the driver reads back after every step (BVM views GetAppchain / GetServiceInfo /
@@ -836,11 +866,23 @@ Definition gate_obs (o : op) (ob : obs) : bool :=
   | _ => true
   end.
 
+(** positions of a history made of blocks: (operation, the gate check is meaningful here, last of its block).
+    Inside a block only the state after the block can be read back; the stored records at the position of a request
+    are those after the block exactly when only requests follow it in the block. *)
+Definition is_ibtp (o : op) : bool := match o with OIbtp _ _ => true | _ => false end.
+Fixpoint block_mask (ops : list op) : list (op * bool * bool) :=
+  match ops with
+  | [] => []
+  | o :: t => (o, forallb is_ibtp t, match t with [] => true | _ => false end) :: block_mask t
+  end.
+Definition hist_mask (bs : list (list op)) : list (op * bool * bool) := flat_map block_mask bs.
+Definition flat_mask (h : list op) : list (op * bool * bool) := map (fun o => (o, true, true)) h.
+
 (** the property on a trace; returns 0 when it holds, else which*100000 + step (which: 1 gate 2 declared 3 forever 4 cascade) *)
-Fixpoint P_trace_from (h : list op) (prev : obs) (tr : list obs) (i : N) : N :=
+Fixpoint P_trace_from (h : list (op * bool * bool)) (prev : obs) (tr : list obs) (i : N) : N :=
   match h, tr with
-  | o :: h', ob :: tr' =>
-      if negb (gate_obs o ob) then 100000 + i
+  | (o, chk, _) :: h', ob :: tr' =>
+      if chk && negb (gate_obs o ob) then 100000 + i
       else if negb (declared_step prev ob) then 200000 + i
       else if negb (forever_step prev ob) then 300000 + i
       else if negb (cascade_obs ob) then 400000 + i
@@ -848,41 +890,57 @@ Fixpoint P_trace_from (h : list op) (prev : obs) (tr : list obs) (i : N) : N :=
   | _, _ => 0
   end%N.
 Definition obs0 : obs := {| ob_ok := true; ob_out := 9; ob_chains := []; ob_svcs := []; ob_rules := []; ob_roles := []; ob_props := []; ob_cache := [] |}.
-Definition P_trace (h : list op) (tr : list obs) : N := P_trace_from h obs0 tr 0.
+Definition P_trace (h : list op) (tr : list obs) : N := P_trace_from (flat_mask h) obs0 tr 0.
 Definition P_b (h : list op) (tr : list obs) : bool := (P_trace h tr =? 0)%N.
+Definition P_trace_blocks (bs : list (list op)) (tr : list obs) : N := P_trace_from (hist_mask bs) obs0 tr 0.
+Definition P_b_blocks (bs : list (list op)) (tr : list obs) : bool := (P_trace_blocks bs tr =? 0)%N.
 
-(** first step at which model and implementation differ: component*1000 + step, 0 = none *)
-Fixpoint first_mismatch (ms is : list obs) (i : N) : N :=
-  match ms, is with
-  | m :: ms', o :: is' => match obs_diff m o with 0%N => first_mismatch ms' is' (N.succ i) | d => d * 1000 + i end
-  | [], [] => 0
-  | _, _ => 9000 + i
+(** first step at which model and implementation differ: component*1000 + step, 0 = none.  Inside a block only
+    the receipt and the request outcome of a transaction can be compared; the state is compared after the block. *)
+Definition obs_diff_light (m i : obs) : N :=
+  if negb (Bool.eqb (ob_ok m) (ob_ok i)) then 1 else if negb (ob_out m =? ob_out i)%N then 2 else 0.
+Fixpoint first_mismatch_m (mask : list (op * bool * bool)) (ms is : list obs) (i : N) : N :=
+  match mask, ms, is with
+  | (_, _, full) :: mask', m :: ms', o :: is' =>
+      match (if full then obs_diff m o else obs_diff_light m o) with
+      | 0%N => first_mismatch_m mask' ms' is' (N.succ i)
+      | d => d * 1000 + i
+      end
+  | _, [], [] => 0
+  | _, _, _ => 9000 + i
   end%N.
+Definition first_mismatch (ms is : list obs) (i : N) : N := first_mismatch_m (map (fun _ => (ORestart, true, true)) ms) ms is i.
 
 Definition model_trace (f : cfg) (h : list op) : list obs := map obs_of (trace f st0 h).
+Definition model_trace_blocks (f : cfg) (bs : list (list op)) : list obs := map obs_of (trace_blocks f st0 bs).
 
-Definition cfg_of_bits (a b c : bool) : cfg := {| d_cache_failed_events := a; d_cache_not_reloaded := b; d_logout_reject_unpauses := c |}.
+Definition cfg_of_bits4 (a b c d : bool) : cfg :=
+  {| d_cache_failed_events := a; d_cache_not_reloaded := b; d_logout_reject_unpauses := c; d_cache_deferred := d |}.
+Definition cfg_of_bits (a b c : bool) : cfg := cfg_of_bits4 a b c false.
 (** the flag sets below [cur], the current one first *)
 Definition sub_cfgs (cur : cfg) : list cfg :=
   let opts (x : bool) := if x then [true; false] else [false] in
-  flat_map (fun a => flat_map (fun b => map (fun c => cfg_of_bits a b c) (opts (d_logout_reject_unpauses cur))) (opts (d_cache_not_reloaded cur)))
+  flat_map (fun a => flat_map (fun b => flat_map (fun c => map (fun d => cfg_of_bits4 a b c d) (opts (d_cache_deferred cur)))
+                                                 (opts (d_logout_reject_unpauses cur))) (opts (d_cache_not_reloaded cur)))
            (opts (d_cache_failed_events cur)).
 
-(** verdict of one history: the property on the implementation's own trace first; then model = implementation
-    under some flag set below the current one.
+(** verdict of one history (a list of blocks): the property on the implementation's own trace first; then
+    model = implementation under some flag set below the current one.
     (2, w*100000 + 50000*e + i): property false at step i (w as above), e = 1 when the implementation's trace is
     the model's trace under a flag set that has the flag responsible for w switched on;  (1, comp*1000 + i): mismatch *)
-Definition judge_hist (cur : cfg) (c : list op * list obs) : verdict :=
-  let '(h, tr) := c in
-  let matched := find (fun f => (first_mismatch (model_trace f h) tr 0 =? 0)%N) (sub_cfgs cur) in
-  match P_trace h tr with
+Definition judge_hist (cur : cfg) (c : list (list op) * list obs) : verdict :=
+  let '(bs, tr) := c in
+  let mask := hist_mask bs in
+  let matched := find (fun f => (first_mismatch_m mask (model_trace_blocks f bs) tr 0 =? 0)%N) (sub_cfgs cur) in
+  match P_trace_blocks bs tr with
   | 0%N => match matched with
            | Some _ => V_ok
-           | None => V_mismatch (first_mismatch (model_trace cur h) tr 0)
+           | None => V_mismatch (first_mismatch_m mask (model_trace_blocks cur bs) tr 0)
            end
   | d => let w := (d / 100000)%N in
          let e := match matched with
-                  | Some f => if (w =? 1)%N then d_cache_failed_events f else if (w =? 4)%N then d_logout_reject_unpauses f else false
+                  | Some f => if (w =? 1)%N then d_cache_failed_events f || d_cache_deferred f
+                              else if (w =? 4)%N then d_logout_reject_unpauses f else false
                   | None => false
                   end in
          V_propfalse (d + (if e then 50000 else 0))
